@@ -113,6 +113,45 @@ def _worker_recipes(items, base):
     return out
 
 
+def router_items(tier):
+    """router configurations whose approval / clear-state programs are checked as emitted programs: every
+    action shape of C08's family (g), the clear-state variants (d), three-method routers and (thorough) the
+    method pairs (c)"""
+    from . import c08
+    cases = [c for c in c08.router_cases(tier) if "action" in c]
+    rest = [c for c in c08.router_cases(tier) if "methods" in c]
+    cases += [c for c in rest if len(c["methods"]) != 1 or c.get("clear") != "none" or c.get("bare")][:(400 if tier == "thorough" else 120)]
+    cases += [c for c in rest if len(c["methods"]) == 1][::(16 if tier == "thorough" else 64)]
+    return cases
+
+
+def _worker_routers(items, base):
+    from . import c08
+    out = _new_out()
+    cnt, oc = out["counters"], out["outcomes"]
+    for case in items:
+        for ver in (6, 8, 10):
+            try:
+                texts = c08.programs_for(case, ver)
+            except drive.PT_ERRORS:
+                oc["pterr"] = oc.get("pterr", 0) + 1
+                continue
+            except Exception:
+                oc["crash"] = oc.get("crash", 0) + 1
+                continue
+            for which, text in zip(("approval", "clear"), texts):
+                cfg = rb.Cfg(ver, "A")
+                issues, p = legality(text, cfg)
+                oc["ok"] = oc.get("ok", 0) + 1
+                cnt["traces_validated"] = cnt.get("traces_validated", 0) + 1
+                cnt["instructions_checked"] = cnt.get("instructions_checked", 0) + len(p.instrs)
+                if issues:
+                    _report(out, issues, text, cfg, "router-" + which, 1, {"router": case, "program": which})
+        cnt["states"] = cnt.get("states", 0) + 1
+        cnt["transitions"] = cnt.get("transitions", 0) + 6
+    return out
+
+
 _CTOR = None
 
 
@@ -232,6 +271,10 @@ def run(tier):
     rep.bounds["constructors"] = len(ents)
     for sh in common.pmap_shards(_worker_ctor, [n for n, _t in ents], order_seed=rep.seed):
         rep.merge(sh)
+    ritems = router_items(tier)
+    rep.bounds["routers"] = len(ritems)
+    for sh in common.pmap_shards(_worker_routers, ritems, order_seed=rep.seed):
+        rep.merge(sh)
     rep.counters["distinct_nontrivial"] = rep.counters.get("states", 0)
     rep.assumptions = ["langspec table vf/avm/spec.py (anchored by the 185 golden TEAL files upstream CI assembled)",
                        "itxn_field per-field introduction versions other than the txn field version are not modelled"]
@@ -243,7 +286,11 @@ def run(tier):
 def replay(case):
     cfg = rb.Cfg.from_json(case["cfg"])
     c = case["case"]
-    if "recipe" in c:
+    if "router" in c:
+        from . import c08
+        texts = c08.programs_for(c["router"], cfg.version)
+        text = texts[0] if c["program"] == "approval" else texts[1]
+    elif "recipe" in c:
         st, text = drive.compile_recipe(c["recipe"], cfg)
         if st != "ok":
             print("no longer compiles:", st, text)
